@@ -133,6 +133,9 @@ def build(seed, i, tier):
         rs.shuffle(order)
         strat = {"kind": "single", "first": order[0], "k": rs.randrange(0, rs.choice([60, 200, 500])), "order": order}
     ctx = [{"kind": "backend", "family": fam, "rkind": kind, "cap": cap}]
+    # (threads that enter and leave their OWN top-level buffer_backend() contexts next to each other were tried and withdrawn:
+    #  C13 speaks of threads inside ONE enclosing context; the unchanged tree raises spurious BufferedError there - recorded
+    #  as an observation in DESIGN §7.8)
     nthreads = len(progs)
     if strat["kind"] == "single":
         order = [f"T{x}" for x in range(nthreads)]
